@@ -266,6 +266,10 @@ func Signature(c *Case, d Disagreement) string {
 			// class K of the specification: a clause that keeps funds is followed by another clause
 			return kind + "@kept-then-clause"
 		}
+		if c.Exp.Sneg {
+			// class S of the specification: `save [A n]` took a tracked balance below zero
+			return kind + "@save-below-zero"
+		}
 		if c.Exp.Zsplit && strings.HasSuffix(kind, "/postings") {
 			// class Z of the specification: same-account parts separated by a zero-amount part
 			return kind + "@zero-part-split"
